@@ -14,7 +14,7 @@ RULE = (
     'canonical regimens in the float form; RP = the myokit.Protocol form with ONE protocol object per model that gets a '
     'further event scheduled and is passed again), set_outputs (two selections), rename parameter / output, enable/disable sensitivities, '
     'copy-and-continue-on-copy, copy-and-keep, wrap in ReducedMechanisticModel + fix / re-fix / release, simulate. '
-    'Tier 1 is EXHAUSTIVE: every sequence of length <= 3 (quick) / <= 4 (thorough) over the 18-letter alphabet on two '
+    'Tier 1 is EXHAUSTIVE: every sequence of length <= 3 (quick) / <= 4 (thorough) over the 20-letter alphabet on two '
     'fixed generated models (1 and 2 compartments) and the library one-compartment model, observed at the end of the '
     'sequence (all prefixes are sequences themselves). Tier 2: Hypothesis draws sequences of up to 25 operations on '
     'freshly generated models / library models (pk, erlotinib) and observes after every step. Non-trivial: an '
@@ -33,9 +33,11 @@ REQUIRED = ['admin_after_config', 'copy_then_mutate', 'wrapped', 'regimen_then_a
             'protocol_object_reused']
 
 TIMES = np.array([0.0, 0.4, 0.7, 1.3, 2.6, 3.9])
-ALPHABET = ['A0', 'A1', 'A2', 'R0', 'R1', 'RP', 'O0', 'O1', 'NP', 'NO', 'S1', 'S0', 'C', 'K', 'F', 'X', 'G', 'E']
+ALPHABET = ['A0', 'A1', 'A2', 'R0', 'R1', 'R2', 'RP', 'O0', 'O1', 'O2', 'NP', 'NO', 'S1', 'S0', 'C', 'K', 'F', 'X', 'G', 'E']
 REGIMENS = {'R0': dict(dose=2.0, start=0.5, duration=0.2, period=1.0, num=3),
-            'R1': dict(dose=1.0, start=0.0, duration=0.01, period=None, num=None)}
+            'R1': dict(dose=1.0, start=0.0, duration=0.01, period=None, num=None),
+            # (a control arm: the same call with a dose of zero replaces whatever was scheduled before)
+            'R2': dict(dose=0.0, start=0.4, duration=0.3, period=None, num=None)}
 
 MS1 = dict(comps=[dict(id='zeta', size=1.3, sid='drug', init=0.8)],
            gstates=[dict(id='Wx', init=1.5)],
@@ -336,6 +338,11 @@ def check(case):
                 net.pren = {q: v for q, v in net.pren.items() if q in valid}
                 if net.outputs is not None:
                     net.outputs = [q for q in net.outputs if q != 'dose.drug_amount' or not direct]
+                    if not net.outputs:
+                        # no selected output survives the new route: chi falls back to the states of the model
+                        # (the class default, not a selection a library function may have made at construction)
+                        net.outputs = sorted(desc.states)
+                        net.oren = {}
             elif op in REGIMENS:
                 r = REGIMENS[op]
                 try:
@@ -356,8 +363,12 @@ def check(case):
                 except ValueError:
                     case.true(net.admin is None, 'set_dosing_regimen(Protocol) was rejected although a route is set')
                     proto[0] = None
-            elif op in ('O0', 'O1'):
-                sel = [desc.states[0]] if op == 'O0' else (list(reversed(desc.states)) + desc.inter[:1])
+            elif op in ('O0', 'O1', 'O2'):
+                if op == 'O2':
+                    # the dose compartment only (exists with an indirect route); the last state otherwise
+                    sel = ['dose.drug_amount'] if (net.admin is not None and not net.admin[1]) else [desc.states[-1]]
+                else:
+                    sel = [desc.states[0]] if op == 'O0' else (list(reversed(desc.states)) + desc.inter[:1])
                 cur.set_outputs(list(sel))
                 net.outputs = list(sel)
                 net.sens = False
